@@ -59,7 +59,7 @@ var profiles = map[string]profile{
 			"pkg/consensus/sync/fast_sync.go":         {GoInline: true},
 			"pkg/blockchain/data_access.go":           {Swap: map[string]string{"golang.org/x/sync/errgroup": pErrgroup}},
 			"pkg/generator/generator.go":              {Swap: map[string]string{"time": pTime}},
-			"pkg/txpool/txpool.go":                    {Swap: map[string]string{"time": pTime}},
+			"pkg/txpool/txpool.go":                    {Swap: map[string]string{"time": pTime}, MapRanges: []string{"t.perAccount"}}, // reorg's per-account goroutines stay real goroutines (they take the pool's write lock while reorg holds the read lock until they are all started, so they cannot run in place); their interleavings are C14's business, their effects are per account
 			// the order of the entries inside a stored diff follows Go's map iteration; it has no meaning, but two nodes
 			// that did the same thing must produce the same bytes for the database images to be comparable (C13)
 			"pkg/db/diffdb/cachedb.go": {MapRanges: []string{"c.data"}},
